@@ -115,6 +115,9 @@ pub struct Shared {
     any_generated: AtomicBool,
     watch: Mutex<HashMap<std::thread::ThreadId, (Instant, Value)>>,
     lazy: Mutex<HashMap<std::thread::ThreadId, (Instant, std::sync::Arc<dyn Fn() -> Value + Send + Sync>)>>,
+    started: Instant,
+    last_beat_ms: AtomicU64,
+    streams_running: AtomicBool,
     pub shards_override: Option<usize>,
     pub scale: f64,
 }
@@ -141,6 +144,9 @@ impl Shared {
             any_generated: AtomicBool::new(false),
             watch: Mutex::new(HashMap::new()),
             lazy: Mutex::new(HashMap::new()),
+            started: Instant::now(),
+            last_beat_ms: AtomicU64::new(0),
+            streams_running: AtomicBool::new(false),
             shards_override: None,
             scale,
         }
@@ -222,6 +228,17 @@ impl Shared {
             }
         }
         out
+    }
+    /// progress heartbeat (every check entry / exit)
+    fn beat(&self) {
+        self.last_beat_ms.store(self.started.elapsed().as_millis() as u64, Ordering::Relaxed);
+    }
+    /// seconds since the last heartbeat while streams are running
+    fn silent_for(&self) -> f64 {
+        if !self.streams_running.load(Ordering::Relaxed) {
+            return 0.0;
+        }
+        (self.started.elapsed().as_millis() as u64).saturating_sub(self.last_beat_ms.load(Ordering::Relaxed)) as f64 / 1000.0
     }
     /// generic stall detection for every stream: remember (lazily serialisable) what runs
     fn watch_lazy(&self, f: std::sync::Arc<dyn Fn() -> Value + Send + Sync>) {
@@ -318,6 +335,7 @@ where
     {
         let name = self.name;
         let copy = v.clone();
+        sh.beat();
         sh.watch_lazy(std::sync::Arc::new(move || json!({"stream": name, "case": serde_json::to_value(&copy).unwrap_or(Value::Null)})));
         // a panic inside the harness/check itself (not guarded library code) is also a failure
         let r = match guard(|| (self.check)(sh, v)) {
@@ -325,6 +343,7 @@ where
             Err(p) => Err(Failure::new("panic", format!("panic escaped: {p}"))),
         };
         sh.unwatch_lazy();
+        sh.beat();
         r
     }
 
@@ -560,6 +579,12 @@ pub fn run_property(prop: &Prop, tier: Tier, seed: u64, root: PathBuf, only_stre
                     println!("INCONCLUSIVE property={} the harness process exceeded 12 GiB of memory; giving up", sh_ref.id);
                     std::process::exit(2);
                 }
+                // nothing is inside a check, yet nothing progresses: a generator (or shrinker) is stuck
+                // in library code it calls while building values
+                if sh_ref.silent_for() > 150.0 && sh_ref.stalled(Duration::from_secs(1)).is_empty() {
+                    println!("INCONCLUSIVE property={} no progress for 150 s outside any check (a generator is stuck building a value)", sh_ref.id);
+                    std::process::exit(2);
+                }
                 for (key, elapsed, v) in sh_ref.stalled(Duration::from_secs(20)) {
                     let limit = if sh_ref.stall_is_violation() { 900 } else { 180 };
                     if elapsed > Duration::from_secs(limit) {
@@ -656,6 +681,8 @@ pub fn run_property(prop: &Prop, tier: Tier, seed: u64, root: PathBuf, only_stre
         sh.stop.store(false, Ordering::Relaxed);
 
         // 3. streams
+        sh.beat();
+        sh.streams_running.store(true, Ordering::Relaxed);
         for s in &streams {
             if let Some(o) = only_stream {
                 if s.name() != o {
@@ -668,6 +695,7 @@ pub fn run_property(prop: &Prop, tier: Tier, seed: u64, root: PathBuf, only_stre
             s.run(&sh);
         }
         let _ = had_violation_before;
+        sh.streams_running.store(false, Ordering::Relaxed);
         done.store(true, Ordering::Relaxed);
         exit_override = wd.join().ok().flatten();
     });
